@@ -157,13 +157,17 @@ PROPS = {
     "C04": {
         "module": "MF.Props.C04Pos",
         "theorems": ["MF.Props.C04.gen_pos_table_ok", "MF.Props.C04.pos_end_total", "MF.Props.C04.pos_end_doc", "MF.Props.C04.pos_end_total_doc",
-                     "MF.Props.C17.walk_gen_eq_spec", "MF.Props.C04.gen_sql_table_ok", "MF.Props.C04.sql_total", "MF.Props.C04.exprPrec_covers"],
-        "module_extra": ["MF.Props.C17", "MF.Props.C04Sql"],
+                     "MF.Props.C17.walk_gen_eq_spec", "MF.Props.C04.gen_sql_table_ok", "MF.Props.C04.sql_total", "MF.Props.C04.exprPrec_covers",
+                     "MF.Props.C04.sites_fill_required", "MF.Props.C04.sites_spec", "MF.Props.C04.required_sql_total", "MF.Props.C04.pos_requires_nothing",
+                     "MF.Props.C04.bad_sites_filled"],
+        "module_extra": ["MF.Props.C17", "MF.Props.C04Sql", "MF.Props.C04Sites"],
         "channels": ["TREE"],
         "pred": True,
         "level": "proof",
-        "trusted_base": ["tables regenerated from ast/ast.go, ast/pos.go, ast/walk_internal.go by tools/extract; interpreters MF/Model/{PosLang,Tree,Walk}.lean validated by the TREE channel"],
-        "assumptions": ["proved: Pos()/End()/SQL() never panic on any tree that is shaped like the catalogue and carries the children its kind's SQL() body dereferences (SqlShaped: decidable, derived from the regenerated tables), Walk terminates with the specified events; NOT proved: that the parser only returns such trees — checked on the implementation for every node of every explored tree (partial)"],
+        "trusted_base": ["tables regenerated from ast/ast.go, ast/pos.go, ast/walk_internal.go by tools/extract; interpreters MF/Model/{PosLang,Tree,Walk}.lean validated by the TREE channel",
+                         "translator tools/extract/nodelits.go (go/ast, purely syntactic, no type checker): every composite literal ast.K{...} of parser.go with the nil-ability class of each node-typed field (structured flow analysis: branches, loops, panics end a path; anything unfamiliar is `unknown`), the origin of string fields, the return / call-site-argument classes of every function, the assignments x.F = v after construction, and the CLAIMED set of never-nil results and parameters (greatest fixed point computed in Go; Lean re-checks that the claim is consistent) are REGENERATED from /repo on every run (lean/MF/Gen/NodeLits.lean) and the static condition re-decided by the kernel; that these literals are the only way nodes are built is an extracted fact, not a theorem"],
+        "assumptions": ["proved: Pos()/End()/SQL() never panic on any tree that is shaped like the catalogue and carries the children its kind's SQL() body dereferences (SqlShaped: decidable, derived from the regenerated tables), Walk terminates with the specified events; NOT proved: that the parser only returns such trees — checked on the implementation for every node of every explored tree (partial)",
+                        "static, whole grammar (MF.Props.C04.sites_fill_required, kernel-decided on the regenerated facts): at every node literal of parser.go every field that the kind's SQL()/Pos()/End() dereference unconditionally (requiredFields, computed from the tables by the clauses of SqlShaped; sqlShaped_of_required ties it to sql_total) is filled from a literal, a function all of whose returns are never nil, a never-nil parameter, a nil-tested pointer variable, or a variable assigned such a value on every path; Ident.Name comes from an identifier token; the Bad* wrappers fill BadNode; 5 sites are accepted in the explicit table assumedSites (each with a justification, stale entries fail); nil elements of node slices and the exprPrec clause are outside this check"],
     },
     "C10": {
         "module": "MF.Props.C10",
